@@ -105,6 +105,8 @@ CheckRoot(id, c) ==    \* m_eff variants cosh / periodic / sinh
   /\ r.T = a.T => \A t \in 0..(a.T - 1) :
        IF kind = "sinh" /\ SinhMiddle(a, t) /\ t <= a.T - 2 /\ ~IsNone(At(a, t)) /\ ~IsNone(At(a, t + 1)) /\ Entry(a, t + 1, 1, 1).v # "0"
        THEN Verdict(id, "m_eff sinh: middle timeslices copy their predecessor", t = 0 \/ At(r, t) = At(r, t - 1))
+       \* odd T, cosh: at 2t + 1 = T the ratio is identically 1 for every mass - no verdict on that timeslice
+       ELSE IF kind = "cosh" /\ 2 * t + 1 = a.T THEN TRUE
        ELSE IF ~RootDefined(a, kind, t) THEN Verdict(id, "m_eff: must be undefined where a referenced timeslice is undefined", IsNone(At(r, t)))
        ELSE IF IsNone(At(r, t)) THEN Verdict(id, "m_eff: undefined although the referenced timeslices are defined", FALSE)
        ELSE LET m == Entry(r, t, 1, 1)
